@@ -50,6 +50,35 @@ def spaced(rng, t):
     return rng.pick(["", " ", "\t", "  "]) + t + rng.pick([" ", "\t", " \t ", "", "\n"])
 
 
+def langid_of_name(name):
+    """language[-Script][-REGION][-variant]* of a well-formed name (None when it is not of that shape)"""
+    import re
+    parts = name.split("-")
+    if not re.fullmatch(r"[A-Za-z]{2,3}|[A-Za-z]{5,8}", parts[0]):
+        return None
+    out = {"l": parts[0].lower(), "s": None, "r": None, "v": []}
+    i = 1
+    if i < len(parts) and re.fullmatch(r"[A-Za-z]{4}", parts[i]):
+        out["s"] = parts[i].title()
+        i += 1
+    if i < len(parts) and re.fullmatch(r"[A-Za-z]{2}|[0-9]{3}", parts[i]):
+        out["r"] = parts[i].upper()
+        i += 1
+    for v in parts[i:]:
+        if not re.fullmatch(r"[A-Za-z0-9]{5,8}|[0-9][A-Za-z0-9]{3}", v):
+            return None
+        out["v"].append(v.lower())
+    out["v"].sort()
+    if out["l"] == "und":
+        out["l"] = None
+    return out
+
+
+def canon_langid(d):
+    low = lambda x: x.lower() if isinstance(x, str) else x
+    return (low(d["l"]) or None, low(d["s"]), low(d["r"]), sorted(low(v) for v in d["v"]))
+
+
 def intern_all(objs):
     table = {}
 
@@ -71,6 +100,18 @@ def run(ctx):
         return
     locs, _ = run_lines(binr, [{"op": "locales", "set": s} for s in SETS])
     sets = dict(zip(SETS, locs))
+    # the supported locales are what their configured NAMES say (BCP-47 reading of the name, done here): negotiation run on anything
+    # else (language identifiers that lost a subtag on the way into the generated constants) is judged against the names
+    for sname, ls in sets.items():
+        for l in ls:
+            want = langid_of_name(l["name"])
+            got = {"l": l["langid"]["l"], "s": l["langid"]["s"], "r": l["langid"]["r"], "v": list(l["langid"]["v"])}
+            if want is not None and canon_langid(got) != canon_langid(want):
+                report_violation(ctx, "negotiation:supported-locale-is-not-its-name", {
+                    "case": {"set": sname, "locale": l["name"]}, "expected_by_spec": want, "implementation": got,
+                    "why": "negotiation matches requests against the language identifier of each supported locale: it must be the one its configured name spells",
+                    "harness": "runtime_h locales (Locale::as_langid)"})
+                l["langid"] = want
     rng = ctx.rng
     cases = []
     corpus = [
